@@ -71,6 +71,22 @@ func vtC05ID(prefix, s string) int64 {
 	return id
 }
 
+// reservation uids: id 1..99 is the Reservation "rNN"; id 100+NN is the operating pod "pNN"
+// (an operating pod is cached under its own pod uid)
+func vtC05RsvUID(id int64) types.UID {
+	if id > 100 {
+		return types.UID(vtC05Str("p", id-100))
+	}
+	return types.UID(vtC05Str("r", id))
+}
+
+func vtC05RsvID(u string) int64 {
+	if strings.HasPrefix(u, "p") {
+		return 100 + vtC05ID("p", u)
+	}
+	return vtC05ID("r", u)
+}
+
 func vtC05Qty(id, v int64) resource.Quantity {
 	if id == 1 {
 		return *resource.NewMilliQuantity(v, resource.DecimalSI)
@@ -254,16 +270,67 @@ func vtC05Pod(uid int64, req corev1.ResourceList, node int64, done bool, rsv int
 		p.Status.Phase = corev1.PodRunning
 	}
 	if rsv != 0 {
-		data, _ := json.Marshal(&apiext.ReservationAllocated{Name: vtC05Str("r", rsv), UID: types.UID(vtC05Str("r", rsv))})
+		data, _ := json.Marshal(&apiext.ReservationAllocated{Name: string(vtC05RsvUID(rsv)), UID: vtC05RsvUID(rsv)})
 		p.Annotations = map[string]string{apiext.AnnotationReservationAllocated: string(data)}
 	}
 	return p
 }
 
+// pod event: uid node done rsv (req) opflag [ready term opts (optres) (reserved) ownbad owner]
 func (r *vtC05Reader) pev() *corev1.Pod {
 	uid, node, done, rsv := r.next(), r.next(), r.next(), r.next()
 	req := r.res()
-	return vtC05Pod(uid, req, node, done != 0, rsv)
+	p := vtC05Pod(uid, req, node, done != 0, rsv)
+	if r.next() == 0 {
+		return p
+	}
+	ready, term, opts := r.next(), r.next(), r.next()
+	optres := r.list()
+	reserved := r.res()
+	ownbad, owner := r.next(), r.next()
+	p.Labels = map[string]string{apiext.LabelPodOperatingMode: string(apiext.ReservationPodOperatingMode)}
+	if p.Annotations == nil {
+		p.Annotations = map[string]string{}
+	}
+	if ready != 0 && done == 0 {
+		p.Status.Conditions = []corev1.PodCondition{{Type: corev1.PodReady, Status: corev1.ConditionTrue}}
+	}
+	if term != 0 {
+		now := metav1.Now()
+		p.DeletionTimestamp = &now
+	}
+	switch opts {
+	case 1:
+		opt := &apiext.ReservationRestrictedOptions{}
+		for _, k := range optres {
+			opt.Resources = append(opt.Resources, vtC05ResName(k))
+		}
+		data, _ := json.Marshal(opt)
+		p.Annotations[apiext.AnnotationReservationRestrictedOptions] = string(data)
+	case 2:
+		p.Annotations[apiext.AnnotationReservationRestrictedOptions] = "{bad"
+	}
+	if len(reserved) > 0 {
+		data, _ := json.Marshal(&apiext.NodeReservation{Resources: reserved})
+		p.Annotations[apiext.AnnotationNodeReservation] = string(data)
+	}
+	var owners []schedulingv1alpha1.ReservationOwner
+	if ownbad != 0 {
+		owners = []schedulingv1alpha1.ReservationOwner{{LabelSelector: &metav1.LabelSelector{
+			MatchExpressions: []metav1.LabelSelectorRequirement{{Key: "k1", Operator: metav1.LabelSelectorOpIn}},
+		}}}
+	} else {
+		owners = []schedulingv1alpha1.ReservationOwner{{LabelSelector: &metav1.LabelSelector{
+			MatchLabels: map[string]string{"app": "x"},
+		}}}
+	}
+	data, _ := json.Marshal(owners)
+	p.Annotations[apiext.AnnotationReservationOwners] = string(data)
+	if owner != 0 {
+		data, _ := json.Marshal(&corev1.ObjectReference{Name: vtC05Str("p", owner), Namespace: "default", UID: types.UID(vtC05Str("p", owner))})
+		p.Annotations[apiext.AnnotationReservationCurrentOwner] = string(data)
+	}
+	return p
 }
 
 // ---------------------------------------------------------------- history stream
@@ -273,7 +340,7 @@ var vtC05Plugin *Plugin // only used for FilterNominateReservation (the allocate
 func vtC05SortedUIDs(m map[types.UID]struct{}) []int64 {
 	out := make([]int64, 0, len(m))
 	for u := range m {
-		out = append(out, vtC05ID("r", string(u)))
+		out = append(out, vtC05RsvID(string(u)))
 	}
 	sort.Slice(out, func(i, j int) bool { return out[i] < out[j] })
 	return out
@@ -322,11 +389,11 @@ func vtC05Dump(obs []int64, code int64, c *reservationCache) []int64 {
 	for u := range c.reservationInfos {
 		uids = append(uids, string(u))
 	}
-	sort.Slice(uids, func(i, j int) bool { return vtC05ID("r", uids[i]) < vtC05ID("r", uids[j]) })
+	sort.Slice(uids, func(i, j int) bool { return vtC05RsvID(uids[i]) < vtC05RsvID(uids[j]) })
 	obs = append(obs, int64(len(uids)))
 	for _, u := range uids {
 		ri := c.reservationInfos[types.UID(u)]
-		obs = append(obs, vtC05ID("r", u), vtC05ID("n", ri.GetNodeName()),
+		obs = append(obs, vtC05RsvID(u), vtC05ID("n", ri.GetNodeName()),
 			vtB(ri.IsAvailable()), vtB(ri.ParseError != nil), vtB(ri.IsAllocateOnce()), vtB(ri.IsTerminating()),
 			vtB(ri.IsMatchable()), vtB(vtC05Gate(ri)))
 		pods := make([]string, 0, len(ri.AssignedPods))
@@ -362,7 +429,7 @@ func vtC05Dump(obs []int64, code int64, c *reservationCache) []int64 {
 			if ri == nil {
 				visited = append(visited, -1)
 			} else {
-				visited = append(visited, vtC05ID("r", string(ri.UID())))
+				visited = append(visited, vtC05RsvID(string(ri.UID())))
 			}
 			return true, nil
 		})
@@ -395,13 +462,13 @@ func vtC05HistoryExec(in []int64) []int64 {
 			c.assumeReservation(vtC05Reservation(rd.spec()))
 		case 5:
 			u, n := rd.next(), rd.next()
-			r := &schedulingv1alpha1.Reservation{ObjectMeta: metav1.ObjectMeta{Name: vtC05Str("r", u), UID: types.UID(vtC05Str("r", u))}}
+			r := &schedulingv1alpha1.Reservation{ObjectMeta: metav1.ObjectMeta{Name: string(vtC05RsvUID(u)), UID: vtC05RsvUID(u)}}
 			r.Status.NodeName = vtC05Str("n", n)
 			c.DeleteReservation(r)
 		case 6:
 			ru, pu := rd.next(), rd.next()
 			req := rd.res()
-			err := c.assumePod(types.UID(vtC05Str("r", ru)), vtC05Pod(pu, req, 0, false, 0))
+			err := c.assumePod(vtC05RsvUID(ru), vtC05Pod(pu, req, 0, false, 0))
 			if err != nil {
 				if strings.Contains(err.Error(), "terminating") {
 					code = 2
@@ -411,7 +478,7 @@ func vtC05HistoryExec(in []int64) []int64 {
 			}
 		case 7:
 			ru, pu := rd.next(), rd.next()
-			c.forgetPods(types.UID(vtC05Str("r", ru)), []*corev1.Pod{vtC05Pod(pu, nil, 0, false, 0)})
+			c.forgetPods(vtC05RsvUID(ru), []*corev1.Pod{vtC05Pod(pu, nil, 0, false, 0)})
 		case 8:
 			ph.OnAdd(rd.pev(), false)
 		case 9:
@@ -438,6 +505,7 @@ type vtC05GenState struct {
 	podReq  map[int64][]int64             // pod uid -> request (flat k v ...)
 	podRsv  map[int64]int64               // pod uid -> reservation it was last attached to
 	podNode map[int64]int64
+	opPod   map[int64]bool // pod uid -> is a reservation-operating-mode pod
 }
 
 func vtC05GenRes(r *rand.Rand, style string, allowPods bool, density int) []int64 {
@@ -545,7 +613,7 @@ func (g *vtC05GenState) req(pu int64) []int64 {
 func (g *vtC05GenState) pev(pu int64, forceRsv int64) []int64 {
 	r := g.r
 	node := g.podNode[pu]
-	if node == 0 || r.Intn(6) == 0 {
+	if node == 0 || (g.style == "unstable" && r.Intn(4) == 0) {
 		node = int64(r.Intn(3))
 		g.podNode[pu] = node
 	}
@@ -554,18 +622,56 @@ func (g *vtC05GenState) pev(pu int64, forceRsv int64) []int64 {
 		rsv = g.podRsv[pu]
 		if r.Intn(3) == 0 {
 			rsv = int64(r.Intn(5)) // 0 = no annotation; may name an unknown reservation
+			if g.style == "operating" && r.Intn(2) == 0 {
+				rsv = 100 + int64(1+r.Intn(5))
+			}
 		}
 	}
 	g.podRsv[pu] = rsv
 	done := vtB(r.Intn(8) == 0)
 	out := []int64{pu, node, done, rsv}
-	return append(out, g.req(pu)...)
+	out = append(out, g.req(pu)...)
+	isOp, ok := g.opPod[pu]
+	if !ok {
+		isOp = (g.style == "operating" && r.Intn(2) == 0) || r.Intn(12) == 0
+		g.opPod[pu] = isOp
+	}
+	if !isOp {
+		return append(out, 0)
+	}
+	opts := int64(0)
+	var optres []int64
+	switch r.Intn(6) {
+	case 0, 1:
+		opts = 1
+		for k := int64(1); k <= 5; k++ {
+			if r.Intn(2) == 0 {
+				optres = append(optres, k)
+			}
+		}
+	case 2:
+		if r.Intn(3) == 0 {
+			opts = 2
+		}
+	}
+	reserved := []int64{0}
+	if r.Intn(4) == 0 {
+		reserved = vtC05GenRes(r, "small", false, 4)
+	}
+	owner := int64(0)
+	if r.Intn(3) == 0 {
+		owner = int64(1 + r.Intn(5))
+	}
+	out = append(out, 1, vtB(r.Intn(4) != 0), vtB(r.Intn(10) == 0), opts, int64(len(optres)))
+	out = append(out, optres...)
+	out = append(out, reserved...)
+	return append(out, vtB(r.Intn(15) == 0), owner)
 }
 
 func vtC05HistoryGen(r *rand.Rand, i int) (string, []int64) {
-	style := []string{"small", "small", "small", "large", "grow", "unstable", "once"}[r.Intn(7)]
+	style := []string{"small", "small", "small", "large", "grow", "unstable", "once", "operating", "operating"}[r.Intn(9)]
 	g := &vtC05GenState{r: r, style: style, nodeOf: map[int64]int64{}, lastRsv: map[int64]vtC05Spec{},
-		podReq: map[int64][]int64{}, podRsv: map[int64]int64{}, podNode: map[int64]int64{}}
+		podReq: map[int64][]int64{}, podRsv: map[int64]int64{}, podNode: map[int64]int64{}, opPod: map[int64]bool{}}
 	nops := 2 + r.Intn(12)
 	in := []int64{int64(nops)}
 	nr := int64(1 + r.Intn(4))
@@ -575,6 +681,14 @@ func vtC05HistoryGen(r *rand.Rand, i int) (string, []int64) {
 		k := r.Intn(20)
 		if j < 2 && r.Intn(3) != 0 {
 			k = r.Intn(2) // start with reservations most of the time
+		}
+		if style == "operating" {
+			if j < 3 && r.Intn(2) == 0 {
+				k = 14 + r.Intn(5) // pod events early: operating pods have to show up first
+			}
+			if k >= 10 && k < 14 && r.Intn(2) == 0 {
+				ru = 100 + 1 + r.Int63n(5) // assume / forget against an operating pod
+			}
 		}
 		switch {
 		case k < 2:
